@@ -14,8 +14,12 @@ package main
 import (
 	"bytes"
 	"fmt"
+	"go/ast"
+	"go/parser"
+	"go/token"
 	"math"
 	"math/rand"
+	"path/filepath"
 	"regexp"
 	"sort"
 	"strconv"
@@ -99,6 +103,10 @@ type c09obs struct {
 	SegDurMS  int64
 	AtoMSInt  int64 // int(ato*1000) as the Go expression evaluates it
 	AtoMSChk  int64 // ato in exact milliseconds (time check)
+	AtoMicro  int64 // ato in exact microseconds (request guard)
+	AtoInf    bool
+	Outside   bool  // the harness's own statement: not (0 <= ato < segment duration), chunked mode has no chunk duration
+	GuardOK   bool  // ato >= 0 && ato*1000 < float64(SegmentDurMS), the Go float64 expression of the handler
 	AvailMS   int64 // advertised end of the segment on the wall clock
 	Sleeps    bool
 	ElapsedMS int64
@@ -269,6 +277,79 @@ func atoMSInt(ato string) int64 {
 	return int64(math.Round(f * 1000)) // the Go expression of writeChunkedSegment (rounds since /repo 4ed430d)
 }
 
+// atoMicro parses a decimal number of seconds (at most 6 decimals) into microseconds; "inf" is +Inf.
+func atoMicro(ato string) (int64, bool) {
+	if ato == "inf" {
+		return 0, true
+	}
+	neg := strings.HasPrefix(ato, "-")
+	s := strings.TrimPrefix(ato, "-")
+	ip, fp, _ := strings.Cut(s, ".")
+	for len(fp) < 6 {
+		fp += "0"
+	}
+	a, _ := strconv.ParseInt(ip, 10, 64)
+	b, _ := strconv.ParseInt(fp[:6], 10, 64)
+	v := a*1000000 + b
+	if neg {
+		v = -v
+	}
+	return v, false
+}
+
+// guardDetected: does livesimHandlerFunc of the tree this harness was built from refuse chunked
+// requests whose availabilityTimeOffset leaves no chunk duration (repair 6ca1ef6)? Read from
+// handler_livesim.go: an if statement whose condition mentions AvailabilityTimeCompleteFlag and
+// SegmentDurMS and whose body answers http.StatusBadRequest. The model is evaluated with this flag;
+// a guard of another shape shows up as a correspondence mismatch.
+var guardDetected bool
+var guardHow string
+
+func detectChunkGuard() (bool, string) {
+	dir := app.VerifC16SourceDir()
+	f, err := parser.ParseFile(token.NewFileSet(), filepath.Join(dir, "handler_livesim.go"), nil, 0)
+	if err != nil {
+		return false, "source not readable: " + err.Error()
+	}
+	mentions := func(n ast.Node, name string) bool {
+		found := false
+		ast.Inspect(n, func(m ast.Node) bool {
+			switch x := m.(type) {
+			case *ast.Ident:
+				if x.Name == name {
+					found = true
+				}
+			case *ast.SelectorExpr:
+				if x.Sel.Name == name {
+					found = true
+				}
+			}
+			return !found
+		})
+		return found
+	}
+	found, how := false, "no guard in livesimHandlerFunc"
+	ast.Inspect(f, func(n ast.Node) bool {
+		fd, ok := n.(*ast.FuncDecl)
+		if !ok || fd.Name.Name != "livesimHandlerFunc" || fd.Body == nil {
+			return true
+		}
+		ast.Inspect(fd.Body, func(m ast.Node) bool {
+			is, ok := m.(*ast.IfStmt)
+			if !ok {
+				return true
+			}
+			hdr := ast.Node(is.Cond)
+			if mentions(hdr, "AvailabilityTimeCompleteFlag") && mentions(hdr, "SegmentDurMS") && mentions(is.Body, "StatusBadRequest") {
+				found, how = true, "if !AvailabilityTimeCompleteFlag && !(ato >= 0 && ato*1000 < SegmentDurMS) -> 400"
+			}
+			return true
+		})
+		return false
+	})
+	return found, how
+}
+
 // atoMSExact parses a decimal number of seconds with at most 3 decimals into milliseconds.
 func atoMSExact(ato string) int64 {
 	neg := strings.HasPrefix(ato, "-")
@@ -332,6 +413,11 @@ func (e *l1env) run(in c09in) (o c09obs) {
 	o.SegDurMS = e.segDur[in.Asset]
 	o.AtoMSInt = atoMSInt(in.Ato)
 	o.AtoMSChk = atoMSExact(in.Ato)
+	o.AtoMicro, o.AtoInf = atoMicro(in.Ato)
+	o.Outside = o.AtoInf || o.AtoMicro < 0 || o.AtoMicro >= o.SegDurMS*1000
+	if f, err := strconv.ParseFloat(in.Ato, 64); err == nil {
+		o.GuardOK = f >= 0 && f*1000 < float64(o.SegDurMS)
+	}
 	o.AvailMS = in.StartS*1000 + ref.LoopE(in.Seg)*1000/ref.Timescale
 
 	whole := e.ls.GetRaw(in.WholeURL)
@@ -359,6 +445,9 @@ func (e *l1env) run(in c09in) (o c09obs) {
 		return o
 	case rec.Status == 425:
 		o.Status = 1
+		return o
+	case rec.Status == 400:
+		o.Status, o.Err = 4, strings.TrimSpace(string(rec.Body))
 		return o
 	case rec.Status != 200:
 		o.Status, o.Err = 3, strings.TrimSpace(string(rec.Body))
@@ -408,9 +497,35 @@ func oracle(c *lib.Ctx, id string, in c09in, o c09obs) {
 		fail("panic:"+site, "handler panicked: "+o.Panic)
 		return
 	}
+	if in.Kind == "l1" && o.Outside {
+		// not (0 <= ato < segment duration): chunked mode has no chunk duration. The tree says (source)
+		// whether such a request is refused; if it is served the media checks below still apply.
+		if o.Status == 4 {
+			c.Count("l1:refused-400-outside-the-offset-range")
+			return
+		}
+		if guardDetected {
+			key := "guard-not-applied"
+			if !o.AtoInf && o.AtoMicro == o.SegDurMS*1000 {
+				key = "guard-not-applied:offset-equal-to-segment-duration"
+			}
+			fail(key, fmt.Sprintf("chunked request with availabilityTimeOffset %s (segment duration %d ms) answered %d instead of 400", in.Ato, o.SegDurMS, o.HTTP))
+			return
+		}
+	}
+	if in.Kind == "l1" && o.Status == 4 {
+		fail("refused-in-domain", fmt.Sprintf("chunked request with availabilityTimeOffset %s (0 <= ato < segment duration %d ms) answered 400: %s", in.Ato, o.SegDurMS, o.Err))
+		return
+	}
 	if in.Kind == "l1" {
 		// too early <=> before the advertised availability time
-		adv := o.AvailMS - o.AtoMSChk
+		adv := o.AvailMS
+		if o.AtoMSChk > 0 && !o.AtoInf {
+			adv -= o.AtoMSChk
+		}
+		if o.AtoInf {
+			adv = 0
+		}
 		switch {
 		case in.NowMS < adv && o.Status != 1:
 			fail("not-refused-early", fmt.Sprintf("request %d ms before the advertised availability time %d was answered with status %d", adv-in.NowMS, adv, o.HTTP))
@@ -547,7 +662,16 @@ func oracle(c *lib.Ctx, id string, in c09in, o c09obs) {
 				slack = 2 * int64(md) // re-segmented audio starts less than one frame after the video segment
 			}
 			if endTicks*1000 >= advTicksNum+slack*1000+1000 {
-				fail("first-chunk-late", fmt.Sprintf("first chunk ends at tick %d, advertised availability is %d/1000 ticks, longest sample %d", endTicks, advTicksNum, md))
+				key := "first-chunk-late"
+				var own uint64
+				for _, s := range whole {
+					own += uint64(s.Dur)
+				}
+				if (int64(own)+2*int64(md))*1000 < o.SegDurMS*o.TS {
+					// this segment is shorter than the asset's nominal (mean) segment duration that the chunk duration is derived from
+					key = "first-chunk-late:segment-shorter-than-nominal"
+				}
+				fail(key, fmt.Sprintf("first chunk ends at tick %d, advertised availability is %d/1000 ticks, longest sample %d", endTicks, advTicksNum, md))
 			}
 		}
 	}
@@ -596,9 +720,16 @@ func c09term(i int, in c09in, o c09obs) string {
 		availMS, atoChk, atoInt, ts, segDur, startS = o.AvailMS, o.AtoMSChk, o.AtoMSInt, o.TS, o.SegDurMS, in.StartS
 	}
 	return fmt.Sprintf("{| c_id := %d; c_durs := %s; c_hasStyp := %s; c_newTime := %s; c_newNr := %d; c_newDur := %d; c_chunkDur := %s; "+
-		"c_segDurMS := %d; c_atoMS := %s; c_atoChk := %s; c_ts := %d; c_startS := %d; c_availMS := %s; c_nowMS := %d; o_status := %d; o_chunks := [%s]; o_writes := %s |}",
+		"c_segDurMS := %d; c_atoMS := %s; c_atoChk := %s; c_atoMicro := "+microTerm(o)+"; c_guard := "+lib.Cbool(guardDetected)+"; c_guardOK := "+lib.Cbool(o.GuardOK)+"; c_ts := %d; c_startS := %d; c_availMS := %s; c_nowMS := %d; o_status := %d; o_chunks := [%s]; o_writes := %s |}",
 		i, lib.Zlist64(durs), lib.Cbool(o.WholeStyp), newTime, newNr, newDur, cd, segDur, lib.Zs(atoInt), lib.Zs(atoChk), ts, startS, lib.Zs(availMS), in.NowMS, o.Status,
 		strings.Join(chunks, "; "), lib.Zlist64(writes))
+}
+
+func microTerm(o c09obs) string {
+	if o.AtoInf {
+		return "None"
+	}
+	return "(Some " + lib.Zs(o.AtoMicro) + ")"
 }
 
 func u64s(v uint64) string { return strconv.FormatUint(v, 10) }
@@ -878,19 +1009,33 @@ func (e *l1env) genL1(rng *rand.Rand, c *lib.Ctx) l1plan {
 		in.Why = fmt.Sprintf("adv+%d", x.off)
 		add("realtime", in, true)
 	}
-	// outside the property's domain: ato equal to (or beyond) the segment duration (chunk duration <= 0)
-	for _, x := range []struct{ asset, rep, ato string }{
-		{"testpic_2s", "V300", "2"}, {"testpic_2s", "A48", "2"}, {"testpic_8s", "V300", "8"}, {"testpic_2s", "V300", "1.99999"},
-		{"testpic_2s", "V300", "3"}, {"testpic_2s", "A48", "2.5"}, {"testpic_8s", "A48", "8.001"}, {"testpic_2s", "V300", "2.04"}} {
+	// both sides of the offset range of chunked mode (0 <= ato < segment duration): exactly the
+	// segment duration, one ms / one us below and above, 0, negative, +Inf; also on the assets
+	// whose SegmentDurMS is a mean (alternating segment durations) or not a whole second (29.97 fps)
+	ms := func(v int64) string { return strconv.FormatFloat(float64(v)/1000, 'f', -1, 64) }
+	for _, x := range []struct{ asset, rep string }{
+		{"testpic_2s", "V300"}, {"testpic_2s", "A48"}, {"testpic_8s", "V300"}, {"testpic_6s", "A48"},
+		{"testpic_alt_seg_dur_stl", "V300"}, {"testpic_alt_seg_dur_stl", "A48"},
+		{"WAVE/vectors/cfhd_sets/14.985_29.97_59.94/t1/2022-10-17", "1"}} {
 		a := e.assets[x.asset]
-		if a == nil {
+		if a == nil || a.Rep(x.rep) == nil {
 			continue
 		}
 		ref := a.Ref()
-		in := c09in{Asset: x.asset, Rep: x.rep, Ato: x.ato, Chunkdur: "0.5", Mode: "number", Seg: 40 + rng.Int63n(1000)}
-		in.NowMS = in.StartS*1000 + ref.LoopE(in.Seg)*1000/ref.Timescale + 5000
-		in.Why = "ato=segdur"
-		add("chunkdur<=0", in, false)
+		sd := e.segDur[x.asset]
+		atos := []string{ms(sd), ms(sd - 1), ms(sd + 1), ms(sd-1) + "999", ms(sd) + "001", ms(sd + 1000), ms(sd / 2), "0", "-0.5", "-0.001"}
+		if guardDetected {
+			atos = append(atos, "inf") // without the guard int(+Inf) is implementation-defined: not modelled
+		}
+		for _, ato := range atos {
+			in := c09in{Asset: x.asset, Rep: x.rep, Ato: ato, Chunkdur: "0.5", Mode: "number", Seg: 40 + rng.Int63n(1000)}
+			in.NowMS = in.StartS*1000 + ref.LoopE(in.Seg)*1000/ref.Timescale + 2*sd + 3000
+			in.Why = "offset-range"
+			add("offset-range:ato="+map[bool]string{true: "outside", false: "inside"}[func() bool {
+				m, inf := atoMicro(ato)
+				return inf || m < 0 || m >= sd*1000
+			}()], in, false)
+		}
 	}
 	return p
 }
@@ -902,6 +1047,8 @@ func runC09(c *lib.Ctx) error {
 	if err != nil {
 		return err
 	}
+	guardDetected, guardHow = detectChunkGuard()
+	c.Res.Notes = append(c.Res.Notes, fmt.Sprintf("request guard of chunked mode in the tree under test: %v (%s)", guardDetected, guardHow))
 	if c.Replay != "" {
 		return replayC09(c, env)
 	}
